@@ -346,7 +346,7 @@ func init() {
 			return sc
 		},
 		Exec:  execC17,
-		Quick: 12*12 + 30, Thorough: 40*40 + 400,
+		Quick: 12*12 + 96, Thorough: 40*40 + 1400,
 		Chunk:      12,
 		NonTrivial: func(res *Result) bool { return res.Stats["nodes.run"] > 1 },
 		Rule:       "one (lines, nodes) pair per evaluation: exhaustive over 1..12 x 1..12 (thorough: 1..40 x 1..40) plus random pairs up to 2000 lines and 64 nodes; the batch file is generated with LF or CRLF endings, optional blank lines and optional missing final line break; the real calculator binary (built from the tree) is run as a child process for -size and -list; each printed range is executed by a simulated node: a fresh session running the shipped dispatcher under the seeded scheduler with the indices main() derives from -lines a-b, on the lines main() would read; oracles: number of ranges = reported array size, ranges contiguous from 1 to the last line, multiset of executed log ids = every non-empty line exactly once; non-trivial = more than one node ran",
